@@ -346,6 +346,9 @@ def generate(rng, index, cfg):
             pos = rng.random() < 0.5
             for short in rng.sample(["s", "o", "a", "m", "i", "d"], rng.randint(1, 3)):
                 flags.append("-" + (short if pos else short.upper()))
+        if rng.random() < 0.3:
+            # the logging level is process-global too (set while parsing); it must never change what a later call returns
+            flags += ["--log-level", rng.choice(["DEBUG", "DEBUG", "INFO", "WARN", "ERROR", "CRITICAL"])]
         ignore = None
         if rng.random() < 0.5:
             ignore = {}
